@@ -213,6 +213,9 @@ func leanTypeM(t types.Type) (string, error) {
 	if lt, ok := k11bType(t); ok { // wp k11b (ext_k11b.go): []bool, opaque object tokens
 		return lt, nil
 	}
+	if lt, ok := k03wType(t); ok { // wp k03w (ext_k03w.go)
+		return lt, nil
+	}
 	switch u := t.Underlying().(type) {
 	case *types.Basic:
 		if u.Info()&types.IsString != 0 {
@@ -383,6 +386,9 @@ func (fc *fnCtx) lexpr(ex ast.Expr) (string, error) {
 	if s, handled, err := fc.extLexpr(ex); handled { // ext_k17k20.go
 		return s, err
 	}
+	if s, handled, err := fc.k03wLexpr(ex); handled { // wp k03w (ext_k03w.go)
+		return s, err
+	}
 	switch x := ex.(type) {
 	case *ast.ParenExpr:
 		return fc.lexpr(x.X)
@@ -494,6 +500,9 @@ func (fc *fnCtx) mexpr(ex ast.Expr) (string, bool, error) {
 		return s, true, err
 	}
 	if s, handled, err := fc.k11bMexpr(ex); handled { // wp k11b (ext_k11b.go)
+		return s, true, err
+	}
+	if s, handled, err := fc.k03wMexpr(ex); handled { // wp k03w (ext_k03w.go)
 		return s, true, err
 	}
 	switch x := ex.(type) {
@@ -1208,6 +1217,9 @@ func (fc *fnCtx) mblock(stmts []ast.Stmt, lvl int) (string, error) {
 		}
 		return prefix + r, nil
 	}
+	if text, handled, err := fc.k03wStmt(s, rest, lvl); handled { // wp k03w (ext_k03w.go; before extStmt, which refuses `n += F(args)`)
+		return text, err
+	}
 	if text, handled, err := fc.extStmt(s, rest, lvl); handled { // ext_k17k20.go
 		return text, err
 	}
@@ -1801,6 +1813,9 @@ func (fc *fnCtx) massign(x *ast.AssignStmt, rest []ast.Stmt, lvl int) (string, e
 		return s, err
 	}
 	if s, handled, err := fc.k11bAssign(x, rest, lvl); handled { // wp k11b (ext_k11b.go)
+		return s, err
+	}
+	if s, handled, err := fc.k03wAssign(x, rest, lvl); handled { // wp k03w (ext_k03w.go)
 		return s, err
 	}
 	cont := func(prefix string) (string, error) {
@@ -2421,6 +2436,7 @@ func (fc *fnCtx) loopCore(body *ast.BlockStmt, extra []ast.Node, ivar string, he
 			return "", fmt.Errorf("loop body assigns free identifier %s", n)
 		}
 	}
+	state = fc.k03wOrderState(state) // wp k03w: state tuple ordered by type, then declaration (reordering declarations keeps it)
 	for _, n := range state {
 		if fc.isParam(n) && isListLT(fc.m.ltype[n]) && !fc.isOutVar(n) {
 			return "", fmt.Errorf("loop body writes elements of parameter %s", n)
@@ -2959,6 +2975,9 @@ func (fc *fnCtx) mrange(x *ast.RangeStmt, rest []ast.Stmt, lvl int) (string, err
 	if s, handled, err := fc.k01decRange(x, rest, lvl); handled { // wp k01dec: package-level table of integer rows
 		return s, err
 	}
+	if s, handled, err := fc.k03wRange(x, rest, lvl); handled { // wp k03w (ext_k03w.go)
+		return s, err
+	}
 	if x.Tok != token.DEFINE && (x.Key != nil || x.Value != nil) {
 		return "", fmt.Errorf("range with assignment")
 	}
@@ -3072,6 +3091,9 @@ func genFuncM(p *packages.Package, e entry) (string, error) {
 				}
 				continue
 			}
+			if k03wSkipParam(fc, fd, fl) { // wp k03w: an unused parameter of map / interface type is dropped
+				continue
+			}
 			return "", err
 		}
 		for _, n := range fl.Names {
@@ -3084,6 +3106,7 @@ func genFuncM(p *packages.Package, e entry) (string, error) {
 			nplain++
 		}
 	}
+	fc.paramNames = k03wParamNames(fc, fd, fc.paramNames) // wp k03w: string parameters are values (locals of the translation)
 	// tie mode: the function works on slice-typed state of a struct parameter (or writes through a pointer)
 	for key, lt := range fc.usedFieldTypes(fd.Body) {
 		if lt == "List Int" {
@@ -3118,6 +3141,7 @@ func genFuncM(p *packages.Package, e entry) (string, error) {
 			outTypes = append(outTypes, fc.m.ltype[n])
 		}
 	}
+	fc.m.outVars, outTypes = k03wOuts(fc, fd, fc.m.outVars, outTypes) // wp k03w: string parameters are values
 	if len(fc.m.outVars) > 0 {
 		fc.m.tie = true
 	}
@@ -3247,6 +3271,7 @@ func genFuncM(p *packages.Package, e entry) (string, error) {
 		return "", nerr
 	}
 	params = fc.k11bParams(params) // wp k11b (ext_k11b.go)
+	params = fc.k03wGlobalParams(params) // wp k03w: run-time filled package-level tables read by the body
 	if fc.m.fuelUsed {
 		params = append([]string{"(fuel : Nat)"}, params...)
 	}
@@ -3275,7 +3300,7 @@ func genFuncM(p *packages.Package, e entry) (string, error) {
 	}
 	extRegister(e, fd, fc, nres) // ext_k17k20.go
 	fc.dmxRegister(e, fd, nres) // wp dmmirror: callable with struct arguments / init tables / fuel
-	return fc.emit(e.pkg+"."+e.name, params, body), nil
+	return fc.k03wThread(fc.emit(e.pkg+"."+e.name, params, body)), nil // wp k03w: loop bodies take the run-time tables too
 }
 
 func (fc *fnCtx) emit(goName string, params []string, body string) string {
